@@ -12,7 +12,7 @@
 (***************************************************************************)
 EXTENDS AsmCore, Json
 
-CONSTANTS CfgSel,       \* which toolchain.yaml: "absent", "empty", "broken", "partial", "crs", "crsblock", "hostile"
+CONSTANTS CfgSel,       \* which toolchain.yaml: "absent", "empty", "broken", "partial", "crs", "crsblock", "named", "mixed", "hostile"
           PoolSel,      \* "core": semantic pool; "hyg": text-hygiene pool (quotes, backslashes, \s, hex)
           MaxLines,     \* maximum number of source lines
           MaxDepth,     \* maximum block nesting
@@ -43,7 +43,7 @@ PAlt   == RT("x|\\.", << <<Lx>>, <<Lit(".")>> >>)          \* hostile: an altern
 PAltS  == RT("$|x", << <<Eol>>, <<Lx>> >>)
 MCCfg   == CASE CfgSel \in {"absent", "empty", "broken"} -> [unix |-> NoPattern, windows |-> NoPattern]
              [] CfgSel = "partial" -> [unix |-> [ev |-> PStar, sfx |-> RTEmpty, nsfx |-> RTEmpty], windows |-> NoPattern]
-             [] CfgSel \in {"crs", "crsblock"} -> [unix |-> [ev |-> PStar, sfx |-> PSfx, nsfx |-> PNSfx],
+             [] CfgSel \in {"crs", "crsblock", "named"} -> [unix |-> [ev |-> PStar, sfx |-> PSfx, nsfx |-> PNSfx],
                                        windows |-> [ev |-> POpt, sfx |-> PNSfx, nsfx |-> PSfx]]
              \* only SOME of the patterns have a top-level alternation
              [] CfgSel = "mixed"   -> [unix |-> [ev |-> PAlt, sfx |-> PSfx, nsfx |-> PStar],
@@ -59,6 +59,12 @@ Blk(v) == "|\n      " \o v \o "  \n"
 YamlBlockOf(c) == "patterns:\n  anti_evasion:\n    unix: " \o Blk(c.unix.ev.txt) \o "    windows: " \o Blk(c.windows.ev.txt)
              \o "  anti_evasion_suffix:\n    unix: " \o Blk(c.unix.sfx.txt) \o "    windows: " \o Blk(c.windows.sfx.txt)
              \o "  anti_evasion_no_space_suffix:\n    unix: " \o Blk(c.unix.nsfx.txt) \o "    windows: " \o Blk(c.windows.nsfx.txt)
+\* "named": the configuration lives in a file of another name, selected with -f; a file with the default
+\* name and other (hostile) patterns lies next to it and must be ignored
+CfgName == IF CfgSel = "named" THEN "other.yaml" ELSE "toolchain.yaml"
+CfgDecoy == IF CfgSel = "named"
+            THEN YamlOf([unix |-> [ev |-> PAlt, sfx |-> PAltS, nsfx |-> PAlt], windows |-> [ev |-> PAltS, sfx |-> PAlt, nsfx |-> PAltS]])
+            ELSE ""
 ConfigText == CASE CfgSel = "absent" -> "" [] CfgSel = "crsblock" -> YamlBlockOf(MCCfg) [] CfgSel = "empty" -> "\n" [] CfgSel = "broken" -> "patterns: [unclosed\n  x: 'y\n"
                 [] OTHER -> YamlOf(MCCfg)
 
@@ -261,7 +267,7 @@ ExportCase == (Export /\ Complete) => PrintT(ToJson(Case))
 
 \* the alphabet, the universe and every pool entry with its language: lets the
 \* harness re-check the pairing of concrete text and fragment
-PoolInfo == [sigma |-> Sigma, n |-> N, symmap |-> SymMap, config |-> ConfigText, cfgsel |-> CfgSel,
+PoolInfo == [sigma |-> Sigma, n |-> N, symmap |-> SymMap, config |-> ConfigText, cfgsel |-> CfgSel, cfgname |-> CfgName, cfgdecoy |-> CfgDecoy,
              pool |-> [i \in 1..Len(Pool) |->
                         [txt |-> Pool[i].txt, lang |-> { Str(s) : s \in LangF(Pool[i].f, {}) }]]]
 ASSUME Export => PrintT(ToJson([poolinfo |-> PoolInfo]))
